@@ -73,8 +73,9 @@ MIXES = {
     # rank: list of (closure kinds, potential kinds, omega kinds) per pair a<=b in type-list order
     1: [(['PY'], ['HS'], ['SS']), (['HNC'], ['LJ'], ['G']), (['MSA'], ['EXP'], ['FA'])],
     2: [(['PY', 'HNC', 'MSA'], ['HS', 'LJ', 'EXP'], ['G', 'NI', 'SS']),
-        (['PYhc', 'PY', 'HNC'], ['HSs', 'HS', 'LJ'], ['FA', 'NI', 'FA'])],
-    3: [(['PY', 'HNC', 'MSA', 'PYhc', 'PY', 'HNC'], ['HS', 'LJ', 'EXP', 'HSs', 'HS', 'LJ'], ['SS', 'NI', 'NI', 'G', 'NI', 'SS'])],
+        (['PYhc', 'PY', 'HNC'], ['HSs', 'HS', 'LJ'], ['FA', 'NI', 'FA']),
+        (['PY', 'PY', 'HNC'], ['HS', 'HS', 'LJ'], ['G', 'G', 'SS'])],          # a copolymer: non-zero unlike-pair omega
+    3: [(['PY', 'HNC', 'MSA', 'PYhc', 'PY', 'HNC'], ['HS', 'LJ', 'EXP', 'HSs', 'HS', 'LJ'], ['SS', 'NI', 'G', 'G', 'NI', 'SS'])],
 }
 
 
@@ -321,8 +322,8 @@ def mk_real_PRISM(f, n, mix):
 
 
 COST_MIXES = {1: [(['PY'], ['HS'], ['SS']), (['HNC'], ['LJ'], ['G'])],
-              2: [(['PYhc', 'HNC', 'MSA'], ['HS', 'LJ', 'EXP'], ['G', 'NI', 'SS'])],
-              3: [(['PY', 'HNC', 'MSA', 'PYhc', 'PY', 'HNC'], ['HS', 'LJ', 'EXP', 'HSs', 'HS', 'LJ'], ['SS', 'NI', 'NI', 'G', 'NI', 'SS'])]}
+              2: [(['PYhc', 'HNC', 'MSA'], ['HS', 'LJ', 'EXP'], ['G', 'G', 'SS'])],
+              3: [(['PY', 'HNC', 'MSA', 'PYhc', 'PY', 'HNC'], ['HS', 'LJ', 'EXP', 'HSs', 'HS', 'LJ'], ['SS', 'NI', 'G', 'G', 'NI', 'SS'])]}
 
 
 @cases(PRISM_cost)
